@@ -303,8 +303,6 @@ Proof.
   destruct H1 as [Hs Hd], H2 as [Hls Hld]. apply PL_NR in Hs. apply PL_NR in Hls. cbv zeta.
   assert (Hstat : W ((tm - cm) / s)) by xw.
   assert (Heff : W (tm - cm)) by xw. assert (Hratio : W (tm / cm)) by xw.
-  assert (Hq2 : NR ((nlit 1 + cfg_confidence_level cfg) / nlit 2)).
-  { destruct (cfg_confidence_level cfg) as [[|] ?|[|] ?|?]; simpl in *; tauto. }
   destruct (alternative_eqb (cfg_alternative cfg) Greater).
   - destruct (Hd (cfg_confidence_level cfg) Hcl) as (_ & _ & _ & Hi). destruct (Hld (cfg_confidence_level cfg) Hcl) as (_ & _ & _ & Hli).
     destruct (Hd ((tm - cm) / s) (W_NR _ Hstat)) as (_ & Hsf & _). apply PL_NR in Hi, Hli, Hsf.
@@ -313,7 +311,10 @@ Proof.
     + destruct (Hd (cfg_confidence_level cfg) Hcl) as (_ & _ & Hp & _). destruct (Hld (cfg_confidence_level cfg) Hcl) as (_ & _ & Hlp & _).
       destruct (Hd ((tm - cm) / s) (W_NR _ Hstat)) as (Hcdf & _). apply PL_NR in Hp, Hlp, Hcdf.
       unfold result_NR, ext_NR, esub. projs. repeat split; xn.
-    + destruct (Hd _ Hq2) as (_ & _ & Hp & _). destruct (Hld _ Hq2) as (_ & _ & Hlp & _).
+    + (* the two-sided quantile level, in whatever form the source writes it: a closed expression in confidence_level *)
+      match goal with |- context [ppf d ?q] =>
+        assert (Hq2 : NR q) by (destruct (cfg_confidence_level cfg) as [[|] ?|[|] ?|?]; simpl in *; tauto) end.
+      destruct (Hd _ Hq2) as (_ & _ & Hp & _). destruct (Hld _ Hq2) as (_ & _ & Hlp & _).
       destruct (Hd (nabs ((tm - cm) / s)) (NR_abs _ (W_NR _ Hstat))) as (_ & Hsf & _). apply PL_NR in Hp, Hlp, Hsf.
       unfold result_NR, ext_NR, esub. projs. repeat split; xn.
 Qed.
